@@ -84,6 +84,7 @@ func init() {
 						v.presentN++
 						w.Logf("presented %s#%d to callback %d (%s)", x.peer.Name, x.ctr, cb, v.kind)
 						if v.kind == "silent" {
+							w.Fault("app.silent")
 							return
 						}
 						// when does the application answer? at once, after some scheduling, or around the timeout
@@ -93,10 +94,13 @@ func init() {
 								w.Yield("thinking")
 							}
 						case 2:
+							w.Fault("app.late")
 							w.Sleep(d.timeout[sf] - time.Millisecond)
 						case 3:
+							w.Fault("app.late")
 							w.Sleep(d.timeout[sf])
 						case 4:
+							w.Fault("app.late")
 							w.Sleep(d.timeout[sf] + time.Millisecond)
 						}
 						e := model.ErrorType{}
